@@ -166,7 +166,7 @@ theorem perm_of_find {α : Type} (key : α → Nat) (t : Nat) : ∀ (l : List α
   | y :: l, r, hn, h => by
     simp only [List.map_cons, List.nodup_cons] at hn
     by_cases hy : key y = t
-    · have : (y :: l).find? (fun x => key x == t) = some y := by simp [List.find?_cons, hy]
+    · have : (y :: l).find? (fun x => key x == t) = some y := by simp [hy]
       rw [this] at h
       cases h
       have hfl : l.filter (fun x => key x != t) = l := by
@@ -176,12 +176,12 @@ theorem perm_of_find {α : Type} (key : α → Nat) (t : Nat) : ∀ (l : List α
           intro hzt
           exact hn.1 (List.mem_map.mpr ⟨z, hz, by rw [hzt, hy]⟩)
         simpa using this
-      simp [List.filter_cons, hy, hfl]
+      simp [hy, hfl]
     · have h' : l.find? (fun x => key x == t) = some r := by
         simpa [List.find?_cons, hy] using h
       have ih := perm_of_find key t l hn.2 h'
       have : (y :: l).filter (fun x => key x != t) = y :: l.filter (fun x => key x != t) := by
-        simp [List.filter_cons, hy]
+        simp [hy]
       rw [this]
       exact (List.Perm.cons y ih).trans (List.Perm.swap r y _)
 
